@@ -1,7 +1,7 @@
 (* C11 — Cell expressions denote the Boolean function MCNP assigns to them.
    Only restatements; proofs are in C11/Proofs.v. Spec vocabulary: C11/Spec.v. *)
-From Coq Require Import List NArith ZArith Bool String.
-From T4V Require Import C11.Model C11.Spec C11.Proofs.
+From Coq Require Import List NArith ZArith Bool String Ascii Lia.
+From T4V Require Import Base.Str C11.Model C11.Spec C11.Proofs C11.LexProofs C11.LexSound C11.Layout C11.Pipeline C11.Sound C11.Complete C11.Loop C11.Card.
 Import ListNotations.
 Close Scope string_scope.
 Open Scope list_scope.
@@ -33,6 +33,19 @@ Theorem C11_pot_complement_den : forall cells rk, table_ok cells rk ->
 Proof. exact pot_complement_sound. Qed.
 Print Assumptions C11_pot_complement_den.
 
+(* the loop the converter actually runs (ConstructVolumeT4: every cell of the
+   dictionary in order, geometry replaced in place): for every well-founded
+   table it terminates, every cell ends complement-free, and each new geometry
+   holds exactly where the old one (hence the MCNP cell) does *)
+Theorem C11_eliminate_all_den : forall (tbl : table) rk, table_ok (lookup tbl) rk ->
+  exists F tbl', (forall f, F <= f -> eliminate_all f tbl = Ok tbl') /\
+    forall n c, lookup tbl n = Some c ->
+      exists c', lookup tbl' n = Some c' /\ a_plain (c_geom c') = true /\
+        forall sg cd, cells_meaning (lookup tbl) sg cd ->
+          aden cd sg (c_geom c') = aden cd sg (c_geom c).
+Proof. exact eliminate_all_den. Qed.
+Print Assumptions C11_eliminate_all_den.
+
 Theorem C11_pot_complement_lattice_empty : forall cells n c z sub f,
   cells n = Some c -> c_lattice c = true -> first_surface (c_geom c) = Some (ASurf z sub) -> z <> 0%Z ->
   pot_complement (S f) cells (ACompl n) = Ok (ARawAnd (ASurf z sub) (ASurf (- z) sub)) /\
@@ -40,20 +53,168 @@ Theorem C11_pot_complement_lattice_empty : forall cells n c z sub f,
 Proof. exact pot_complement_lattice. Qed.
 Print Assumptions C11_pot_complement_lattice_empty.
 
-(* parsing: every admissible MCNP expression, written with MCNP's precedence
-   (blank binds tighter than ':', parentheses only where needed, #( ) and #n),
-   is accepted and yields GeomSemantics' tree ... *)
-Theorem C11_parse_print : forall e : mexpr, admissible e = true ->
-  exists a, parse_tokens (toks 0 e) = Ok a /\ sem e = Ok a.
-Proof. exact parse_print. Qed.
+(* ---- parsing ---- *)
+(* token level: the canonical token sequence of every admissible expression
+   (MCNP's precedence: blank binds tighter than ':', parentheses only where
+   needed, #( ) and #n) is accepted and yields GeomSemantics' tree ... *)
+Theorem C11_parse_print_tokens : forall e : mexpr, admissible e = true ->
+  exists a, parse_tokens (toks 0 e) = Ok a /\ sem e = Ok a /\
+            forall cd sg, aden cd sg a = mden cd sg e.
+Proof. exact parse_print_tokens. Qed.
+Print Assumptions C11_parse_print_tokens.
+
+(* the layout lemma: the lexer reads EVERY admissible writing of a token
+   sequence back to that sequence. A writing fixes, per token, the number of
+   blanks in front of it (and at the end of the text), the spelling of numbers
+   (any digit string, leading zeros included), an optional '+', the blanks
+   between '#' and what follows; the only constraints ([wf_written]) are the
+   blanks MCNP itself needs: between two literals, and between #n and an
+   unsigned literal *)
+Theorem C11_lex_render : forall (ws : written) (trail : nat), wf_written ws = true ->
+  tokens_of (render ws trail) = tokens_written ws.
+Proof. exact tokens_of_render. Qed.
+Print Assumptions C11_lex_render.
+
+(* string level, the canonical writing: decimal numbers, one blank between
+   tokens. For every admissible expression (one-digit facets) the text is
+   accepted and the tree denotes the Boolean function MCNP assigns to the
+   expression, for every sense assignment and every meaning of the referenced
+   cells *)
+Theorem C11_parse_print_canonical : forall e : mexpr,
+  admissible e = true -> facets_ok e = true ->
+  exists a, get_ast (print e) = Ok a /\ sem e = Ok a /\
+            forall cd sg, aden cd sg a = mden cd sg e.
+Proof. exact parse_print_canonical. Qed.
+Print Assumptions C11_parse_print_canonical.
+
+(* string level, every layout of the family *)
+Theorem C11_parse_print : forall (e : mexpr) (ws : written) (trail : nat),
+  admissible e = true -> wf_written ws = true -> tokens_written ws = toks 0 e ->
+  exists a, get_ast (render ws trail) = Ok a /\ sem e = Ok a /\
+            forall cd sg, aden cd sg a = mden cd sg e.
+Proof. exact parse_print_layout. Qed.
 Print Assumptions C11_parse_print.
 
-(* ... which denotes the Boolean function MCNP assigns to the expression, for
-   every sense assignment and every meaning of the referenced cells *)
-Theorem C11_parse_print_den : forall e : mexpr, admissible e = true ->
-  exists a, parse_tokens (toks 0 e) = Ok a /\ forall cd sg, aden cd sg a = mden cd sg e.
-Proof. exact parse_print_den. Qed.
-Print Assumptions C11_parse_print_den.
+(* the family is inhabited for every expression *)
+Theorem C11_layout_exists : forall e : mexpr, facets_ok e = true ->
+  exists ws, wf_written ws = true /\ tokens_written ws = toks 0 e.
+Proof. exact layout_exists. Qed.
+Print Assumptions C11_layout_exists.
+
+(* ---- the property end to end (model level) ----
+   any table of admissible cells whose complements are well founded, any
+   admissible expression referring to it, written in any layout of the family:
+   the text is accepted, complement elimination terminates with a
+   complement-free tree, and for EVERY sense assignment the tree holds exactly
+   where MCNP says the expression holds ([cd] = membership in the table's cells
+   as MCNP defines it) *)
+Theorem C11_pipeline : forall mc cells rk (e : mexpr) (ws : written) (trail k : nat),
+  parsed_table mc cells -> table_ranked mc rk ->
+  admissible e = true -> mrefs (fun m => (exists e', mc m = Some e') /\ rk m < k) e ->
+  wf_written ws = true -> tokens_written ws = toks 0 e ->
+  exists a F t, get_ast (render ws trail) = Ok a /\
+    (forall f, F <= f -> pot_complement f cells a = Ok t) /\ a_plain t = true /\
+    forall sg cd, mcnp_meaning mc sg cd -> aden cd sg t = mden cd sg e.
+Proof. exact pipeline. Qed.
+Print Assumptions C11_pipeline.
+
+(* ---- what happens outside [admissible] ----
+   parser o printer is the function [psem] for EVERY expression (errors
+   included, in the order the parser meets them) ... *)
+Theorem C11_parse_psem : forall (e : mexpr) (ws : written) (trail : nat),
+  wf_written ws = true -> tokens_written ws = toks 0 e -> get_ast (render ws trail) = psem e.
+Proof. exact get_ast_render_psem. Qed.
+Print Assumptions C11_parse_psem.
+
+(* ... so the accepted expressions are exactly those with no cell complement
+   below a #( ) and no complement right after a colon ... *)
+Theorem C11_accepted_iff : forall (e : mexpr) (ws : written) (trail : nat),
+  wf_written ws = true -> tokens_written ws = toks 0 e ->
+  ((exists a, get_ast (render ws trail) = Ok a) <->
+   no_cell_under_not e && no_colon_hash e = true).
+Proof. exact accepted_written_iff. Qed.
+Print Assumptions C11_accepted_iff.
+
+(* ... and each defect class, alone, gives its own exception: every well-formed
+   expression with a #n below #( ) raises AttributeError, every one with a
+   complement right after a colon is a parse error (known findings
+   nested_complement_of_cellref, complement_after_colon) *)
+Theorem C11_nested_rejected : forall (e : mexpr) (ws : written) (trail : nat),
+  wf_written ws = true -> tokens_written ws = toks 0 e ->
+  no_colon_hash e = true -> no_cell_under_not e = false ->
+  get_ast (render ws trail) = Err EAttribute.
+Proof. exact nested_rejected_written. Qed.
+Print Assumptions C11_nested_rejected.
+
+Theorem C11_colon_hash_rejected : forall (e : mexpr) (ws : written) (trail : nat),
+  wf_written ws = true -> tokens_written ws = toks 0 e ->
+  no_cell_under_not e = true -> no_colon_hash e = false ->
+  get_ast (render ws trail) = Err EParse.
+Proof. exact colon_hash_rejected_written. Qed.
+Print Assumptions C11_colon_hash_rejected.
+
+(* ---- soundness of acceptance ----
+   whatever token sequence the parser accepts is the canonical token sequence
+   of an MCNP expression (its parentheses as MParen nodes), the tree is
+   [psem e], and it denotes MCNP's meaning of that expression: the parser never
+   gives a meaning to something that is not an expression, nor a wrong one.
+   (token level first, string level below) *)
+Theorem C11_parse_sound : forall (ts : list token) (a : ast), parse_tokens ts = Ok a ->
+  exists e, toks 0 e = ts /\ psem e = Ok a /\
+    (nonzero e = true -> forall cd sg, aden cd sg a = mden cd sg e).
+Proof. exact parse_sound_den. Qed.
+Print Assumptions C11_parse_sound.
+
+(* converse of the layout lemma: a text the lexer reads without error IS a
+   writing of the layout family, of the tokens it returns *)
+Theorem C11_lex_sound : forall s : String.string, ~ In TBad (tokens_of s) ->
+  exists ws trail, render ws trail = s /\ wf_written ws = true /\ tokens_written ws = tokens_of s.
+Proof. exact tokens_of_sound. Qed.
+Print Assumptions C11_lex_sound.
+
+(* string level: every accepted text is a layout of an MCNP expression and the
+   tree denotes MCNP's meaning of it *)
+Theorem C11_get_ast_sound : forall (s : String.string) (a : ast), get_ast s = Ok a ->
+  exists e ws trail, render ws trail = s /\ wf_written ws = true /\
+    tokens_written ws = toks 0 e /\ psem e = Ok a /\
+    (nonzero e = true -> forall cd sg, aden cd sg a = mden cd sg e).
+Proof. exact get_ast_sound_written. Qed.
+Print Assumptions C11_get_ast_sound.
+
+(* the accepted texts are exactly the writings of the accepted expressions *)
+Theorem C11_get_ast_accepts_iff : forall s : String.string,
+  (exists a, get_ast s = Ok a) <->
+  (exists e ws trail, render ws trail = s /\ wf_written ws = true /\
+     tokens_written ws = toks 0 e /\ no_cell_under_not e && no_colon_hash e = true).
+Proof. exact get_ast_accepts_iff. Qed.
+Print Assumptions C11_get_ast_accepts_iff.
+
+(* ---- the cell card (MIP/mip/cellcard.py split) ----
+   a card  name blanks mat [blanks rho] blanks E options : name and material
+   number are digit strings ("0"... = void, then no density), the density is
+   made of digits, signs and '.', E consists of expression characters and starts
+   with a non-blank, the options (if any) start with a letter or '*' right after
+   a ')' or a blank.  split() returns E with its leading blanks as the geometry
+   and the options untouched *)
+Theorem C11_split_card : forall name g1 mat rho g3 E opts,
+  digits_ok name = true -> mat_ok mat rho ->
+  str_forall expr_char E = true -> head_sat nonblank E = true -> opts_ok E opts ->
+  split_card (card_body name g1 mat rho g3 E ++ opts)%string = Ok ((blanks (S g3) ++ E)%string, opts).
+Proof. exact split_card_wellformed. Qed.
+Print Assumptions C11_split_card.
+
+(* ... and when E is any layout of any expression e, parsing the geometry part
+   gives exactly [psem e] (hence, with C11_parse_print / C11_pipeline, MCNP's
+   meaning when e is admissible) *)
+Theorem C11_card_geometry : forall name g1 mat rho g3 (e : mexpr) w r trail opts,
+  let ws := (0, w) :: r in
+  digits_ok name = true -> mat_ok mat rho ->
+  wf_written ws = true -> tokens_written ws = toks 0 e ->
+  opts_ok (render ws trail) opts ->
+  exists geom, split_card (card_body name g1 mat rho g3 (render ws trail) ++ opts)%string = Ok (geom, opts) /\
+               get_ast geom = psem e.
+Proof. exact card_geometry. Qed.
+Print Assumptions C11_card_geometry.
 
 (* [admissible] excludes exactly two classes of well-formed MCNP expressions
    that the code rejects (genuine defects, known findings): *)
@@ -76,6 +237,65 @@ Example C11_example :
   admissible e = true /\ tokens_of "#(1:-2.3) #5:4"%string = toks 0 e /\
   get_ast "#( 1 : -2.3 )#5 : 4"%string = sem e.
 Proof. cbv zeta. repeat split; vm_compute; reflexivity. Qed.
+
+(* a non-canonical writing of the same expression inside the layout family:
+   "  #  (+01:-2.3)#005  :4 " *)
+Example C11_example_layout :
+  let e := MOr (MAnd (MNot (MOr (MLit 1 None) (MLit (-2) (Some 3%N)))) (MNotCell 5)) (MLit 4 None) in
+  let ws := [(2, WHashP 2); (0, WLit false true "01" None); (0, WColon); (0, WLit true false "2" (Some "3"%char));
+             (0, WRP); (0, WHashN 0 "005"); (2, WColon); (0, WLit false false "4" None)]%string in
+  wf_written ws = true /\ tokens_written ws = toks 0 e /\
+  render ws 1 = "  #  (+01:-2.3)#005  :4 "%string /\
+  print e = "#( 1 : -2.3 ) #5 : 4"%string.
+Proof. cbv zeta. repeat split; vm_compute; reflexivity. Qed.
+
+(* redundant parentheses are part of the spec language *)
+Example C11_example_paren :
+  let e := MAnd (MParen (MParen (MLit 1 None))) (MParen (MOr (MLit 2 None) (MParen (MNotCell 3)))) in
+  admissible e = true /\ print e = "( ( 1 ) ) ( 2 : ( #3 ) )"%string /\
+  get_ast "((1))(2:(#3))"%string = Ok (AAnd (ASurf 1 None) (AOr (ASurf 2 None) (ACompl 3))).
+Proof. cbv zeta. repeat split; vm_compute; reflexivity. Qed.
+
+(* a card: "12 3 -2.7 (1:-2)#5imp:n=1 u=2"? no: options need ')' or a blank in
+   front; "12 3 -2.7 #5 (1:-2)imp:n=1 u=2" *)
+Example C11_example_card :
+  let ws := [(0, WHashN 0 "5"); (1, WLP); (0, WLit false false "1" None); (0, WColon);
+             (0, WLit true false "2" None); (0, WRP)]%string in
+  mat_ok "3"%string (Some (0, "-2.7"%string)) /\ opts_ok (render ws 0) "imp:n=1 u=2"%string /\
+  (card_body "12" 0 "3" (Some (0, "-2.7")) 0 (render ws 0) ++ "imp:n=1 u=2" = "12 3 -2.7 #5 (1:-2)imp:n=1 u=2")%string /\
+  split_card "12 3 -2.7 #5 (1:-2)imp:n=1 u=2"%string = Ok (" #5 (1:-2)"%string, "imp:n=1 u=2"%string).
+Proof.
+  cbv zeta. split; [|split; [|split]].
+  - split; [reflexivity|]. split; [reflexivity|]. split; [reflexivity|discriminate].
+  - right. exists "#5 (1:-2"%string, ")"%char, "i"%char, "mp:n=1 u=2"%string. repeat split; reflexivity.
+  - reflexivity.
+  - vm_compute. reflexivity.
+Qed.
+
+(* non-vacuity of the end-to-end theorem: cells 1 = "-1 2", 2 = "#1 : 3",
+   and the expression "#2 #1" *)
+Example C11_example_pipeline :
+  let mc := fun n : N => match n with
+     | 1%N => Some (MAnd (MLit (-1) None) (MLit 2 None))
+     | 2%N => Some (MOr (MNotCell 1) (MLit 3 None))
+     | _ => None end in
+  let cells := fun n : N => match n with
+     | 1%N => Some (mkCell (AAnd (ASurf (-1) None) (ASurf 2 None)) false)
+     | 2%N => Some (mkCell (AOr (ACompl 1) (ASurf 3 None)) false)
+     | _ => None end in
+  let e := MAnd (MNotCell 2) (MNotCell 1) in
+  parsed_table mc cells /\ table_ranked mc N.to_nat /\ admissible e = true /\
+  mrefs (fun m => (exists e', mc m = Some e') /\ N.to_nat m < 3) e.
+Proof.
+  cbv zeta. split; [|split; [|split]].
+  - intros n. destruct n as [|[[|[]|]|[|[]|]|]]; try reflexivity.
+    + split; [reflexivity|]. eexists. split; reflexivity.
+    + split; [reflexivity|]. eexists. split; reflexivity.
+  - intros n e H. destruct n as [|[[|[]|]|[|[]|]|]]; try discriminate; injection H as <-; cbn;
+      repeat split; try (eexists; reflexivity); lia.
+  - reflexivity.
+  - cbn. repeat split; try (eexists; reflexivity); lia.
+Qed.
 
 (* non-vacuity of the complement theorem: a three-cell table *)
 Example C11_example_table :
